@@ -273,6 +273,12 @@ def r4_3(ctx: Ctx) -> None:
                                 if isinstance(t, ast.Subscript) and isinstance(t.value, ast.Attribute) and t.value.attr == nm \
                                         and isinstance(t.value.value, ast.Name) and t.value.value.id == "self":
                                     mutated.append(f"{m.short}:{node.lineno}")
+                        if isinstance(node, ast.AugAssign) and isinstance(node.target, ast.Attribute) and node.target.attr == nm \
+                                and isinstance(node.target.value, ast.Name) and node.target.value.id == "self":
+                            if getattr(node, "from_binop", False):  # `self.x = self.x + [...]`: a new object, bound on the instance
+                                rebound = rebound or m.name in ("__init__", "model_post_init")
+                            else:  # `self.x += [...]` extends the class-level object in place (and then binds it on the instance)
+                                mutated.append(f"{m.short}:{node.lineno}")
                         if isinstance(node, ast.Call) and isinstance(node.func, ast.Attribute) and node.func.attr in MUTATING_METHODS \
                                 and isinstance(node.func.value, ast.Attribute) and node.func.value.attr == nm \
                                 and isinstance(node.func.value.value, ast.Name) and node.func.value.value.id == "self":
@@ -335,8 +341,8 @@ def r4_3(ctx: Ctx) -> None:
                     for t in (node.targets if isinstance(node, ast.Assign) else [node.target]):
                         if isinstance(t, ast.Subscript) and isinstance(t.value, ast.Name) and t.value.id == p.arg:
                             muts.append(node.lineno)
-                        if isinstance(node, ast.AugAssign) and isinstance(t, ast.Name) and t.id == p.arg:
-                            muts.append(node.lineno)
+                        if isinstance(node, ast.AugAssign) and isinstance(t, ast.Name) and t.id == p.arg and not getattr(node, "from_binop", False):
+                            muts.append(node.lineno)  # `p += [...]` extends the default object; `p = p + [...]` rebinds the local
             ctx.record("R4.3", ctx.key(fn, f"mutable default argument `{p.arg}`"), fn.loc(), not muts,
                        "default object is only read" if not muts else f"shared default object mutated in place at lines {muts[:4]}")
     ctx.floor("R4.3", "mutable default arguments", m, 5)
